@@ -41,7 +41,7 @@ PROPS = {
                        "an independent BTreeMap oracle."),
         "level_note": ("Trusted: Lean kernel; the P1 model abstracts storage below the log-record level (tied by correspondence only); "
                        "hash injectivity (A-hash); compression round trip (A-compress); harness generators."),
-        "lean": ["Pdb.Props.C01", "Pdb.Proofs.Order", "Pdb.Props.Refine", "Pdb.Props.RefineRc"],
+        "lean": ["Pdb.Props.C01", "Pdb.Props.C01b", "Pdb.Proofs.Order", "Pdb.Props.Refine", "Pdb.Props.RefineRc"],
         "harness": [{"cmd": "p1", "quick": 300, "thorough": 20000}],
         "rule": P1_RULE,
         "assumptions": [A_HASH, A_COMPRESS, P2_GAP],
@@ -72,12 +72,20 @@ PROPS = {
                        "after-images) yields exactly the specification of a prefix of the committed transactions containing everything "
                        "synced, the invariant holds again, and replay absorbs any partially replayed state. Tied to the code by crash "
                        "images of the real directory (step boundaries, cut unsynced log tails) reopened with the real code; the recovered "
-                       "prefix must be one the model allows."),
+                       "prefix must be one the model allows. C02_real_recovery_eq / C02_recover_prefix_real / C02_real_recovery_restart (Props/C02Real): "
+                       "the recovery is no longer only postulated: a wrapper state tracks the log FILES (flush closes a file, enact consumes files oldest "
+                       "first, clean_logs reclaims fully enacted files oldest first, possibly interrupted; reclaimed numbers are reused), and the real "
+                       "algorithm of Db::open on the files a crash leaves (any directory order: sort by first record id, start at first id - 1, accept "
+                       "consecutive ids, re-apply enacted-but-retained records, stop at the first gap) yields exactly crashRecover's tables; "
+                       "C02_real_needs_oldest_first / C02_real_needs_first_id_order: with youngest-first reclaim or file-number order it does not; "
+                       "C02_real_is_wal_replay: this id logic is the byte-level replay of the C13 model on encoded well-formed records. The p1 runs "
+                       "emit the log files of every crash image (file numbers + record ids read from the image, incl. crashes inside clean_logs); "
+                       "the model must recognise them as a crash image of its file state and its real recovery must yield the observed prefix."),
         "level_note": ("Trusted: Lean kernel; P1 abstracts records to logical after-images (physical record layout, index/value tables "
                        "tied by correspondence only); crash points inside a single file operation are represented by (j, n) in the model "
                        "and sampled at step boundaries + log-tail cuts on the implementation; page-granular power loss is C12; damaged "
                        "logs are C13."),
-        "lean": ["Pdb.Props.C02", "Pdb.Props.C02x", "Pdb.Proofs.Order"],
+        "lean": ["Pdb.Props.C02", "Pdb.Props.C02Real", "Pdb.Props.C01b", "Pdb.Props.C02x", "Pdb.Proofs.Order"],
         "harness": [{"cmd": "p1", "quick": 250, "thorough": 15000},
                     {"cmd": "c02x", "quick": 450, "thorough": 8000}],
         "rule": P1_RULE,
@@ -92,7 +100,7 @@ PROPS = {
                        "open, which the model folds into one step; drops WITH background threads (deep queues, many pending log files, "
                        "shutdown at a random moment) are exercised by the c15 scenarios, whose oracle checks that every Ok-committed key is "
                        "present after reopen; worker-thread shutdown itself is C15."),
-        "lean": ["Pdb.Props.C03", "Pdb.Proofs.Order"],
+        "lean": ["Pdb.Props.C03", "Pdb.Props.C02Real", "Pdb.Props.C01b", "Pdb.Proofs.Order"],
         "harness": [{"cmd": "p1", "quick": 250, "thorough": 15000},
                     {"cmd": "c15", "quick": 24, "thorough": 300, "model": False, "timeout": 3000}],
         "rule": P1_RULE,
@@ -106,7 +114,7 @@ PROPS = {
                        "set/reference/dereference histories on hash and btree rc columns with crashes and reopens."),
         "level_note": ("Trusted: Lean kernel; P1 abstraction; the preimage contract (value is a function of the key) is a hypothesis; "
                        "value iteration is compared on the implementation only (iter_column_while)."),
-        "lean": ["Pdb.Props.C07", "Pdb.Props.RefineRc"],
+        "lean": ["Pdb.Props.C07", "Pdb.Props.C07b", "Pdb.Props.RefineRc"],
         "harness": [{"cmd": "p1", "quick": 250, "thorough": 15000}, {"cmd": "r5", "quick": 60, "thorough": 600}],
         "rule": P1_RULE,
         "assumptions": [A_HASH, A_COMPRESS, P2_GAP, "preimage contract: every Set on a preimage / rc column carries valueOf(key)"],
@@ -145,7 +153,7 @@ PROPS = {
                        "independent call index, optionally with a slow disk; in serial mode its commits, the synced prefix (marker keys seen in log "
                        "writes that precede a successful fdatasync) and the recovered prefix are replayed on the P1 model (p1 fail / failreopen). "
                        "OS scheduling decides which interleavings occur; a hang is decided by a 45 s watchdog with one re-run."),
-        "lean": ["Pdb.Props.C16", "Pdb.Proofs.Order"],
+        "lean": ["Pdb.Props.C16", "Pdb.Props.C16b", "Pdb.Proofs.Order"],
         "harness": [{"cmd": "c16", "quick": 150, "thorough": 8000},
                     {"cmd": "c16t", "quick": 250, "thorough": 3000, "quick_timeout": 900, "timeout": 3000}],
         "rule": ("fault-free stretches of a generated history, then one stepping call (process / flush / enact / clean / reindex) or Db::open of "
@@ -289,15 +297,29 @@ PROPS = {
                        "exactly the source keys with the same values, the same counts on a reference-counted destination and count 1 "
                        "otherwise), C20_iter_complete (the walk reports every live key exactly once), C20_selection / "
                        "C20_unselected_copied / C20_source_unchanged / C20_selected_content (column selection, copied columns, source "
-                       "untouched without overwrite). The code before the fixes is modelled too (migrateColBuggy): the property is false "
+                       "untouched without overwrite; C20_unselected_copied and C20_iter_complete are statements about the abstract column model and "
+                       "hold by construction - the code-level content is in the next two groups). Directory level (model of copy_column / move_column "
+                       "/ deplace_column on the C17 directory model; the `||` chain of is_file_name tests is regenerated from src/migration.rs and "
+                       "C20_deplace_chain_eq_drop_files proves it equal to the chain of Column::drop_files - this obligation fails on the code before "
+                       "fix 039fa8c): C20_unselected_files_copied (for every directory content, every behaviour of the database handles within the "
+                       "frame conditions DbEffects.Frame, every selection, overwrite on/off: every file that belongs to an unselected column by the test "
+                       "Column::drop_files uses is in the result directory with the same content, no other file of that column is, and the source keeps "
+                       "it), C20_copy_move_column, negation witness C20_old_chain_loses_refcount. Physical walk (tables oldest first, an entry is skipped "
+                       "iff an older table holds the same partial key and address): C20_walk_complete / C20_walk_dest_eq_source under the explicit "
+                       "hypotheses PhysCol.Inv (inj = C09 IdxInv.inj; nodup and live are NOT provided by C09, live is false in reachable states: "
+                       "C20_walk_stale_witness = known finding F26), C20_walk_only_written_keys, C20_selection_multitree_refused. "
+                       "The code before the fixes is modelled too (migrateColBuggy): the property is false "
                        "for it, with proved witnesses C20_F6_counterexample (count 2 into a plain destination yields the empty value) and "
                        "C20_F10_counterexample (a key still held by a queued older index table is lost), and C20_buggy_exact says exactly "
                        "which cells differ. The model is tied to the code by running parity_db::migrate on generated source databases and "
                        "comparing the destination content with the compiled model and with an independent BTreeMap oracle."),
         "level_note": ("Trusted: Lean kernel; destination semantics = Pdb.spec / applyCell (tied by C01 / C07); compression round trip "
                        "(A-compress); hash functions are opaque (the theorem needs only equal `uniform` flags and the copied salt); the "
-                       "loop structure of migrate (rc Sets per entry, COMMIT_SIZE batching, copy_column / move_column) is hand-modelled "
-                       "and tied by correspondence; hooks Db::verif_iter_index / verif_hash_key / verif_index_tables / "
+                       "loop structure of migrate (rc Sets per entry, COMMIT_SIZE batching, the order of copy_column / move_column / write_metadata in the "
+                       "column loop) is hand-modelled and tied by correspondence (`c20 files`, `c20 walk`, `c20 migrate`, `c20 plan`); the file selection of "
+                       "copy_column / move_column is generated (T0); what Db handles do to the directories is abstract (DbEffects.Frame); dedup of the walk "
+                       "is modelled as equality of (recover_index_key, address) pairs, the code compares (chunk, partial key, address) in the older table - "
+                       "the same 50 bits (C20_visible_bits); hooks Db::verif_iter_index / verif_hash_key / verif_index_tables / "
                        "verif_index_entries, verif::recover_key_prefix. Real index sizes reached by the runs: 16..18 bits; 16..49 are "
                        "covered by synthetic round trips through the real recover_key_prefix and by the theorem."),
         "lean": ["Pdb.Props.C20"],
@@ -311,27 +333,43 @@ PROPS = {
                  "older index file still queued: F10) 17%, badplan (column count mismatch, btree column selected, forced column id out of "
                  "range) 8%, bulk (> COMMIT_SIZE Sets: several raw commits) 4%. Per case 8 (32 thorough) synthetic recover_key_prefix "
                  "round trips with index sizes 16..49. distinct = SHA-1 of the op list; non-trivial = a migrated column holds a count > 1 "
-                 "or more than 64 keys, or the index was grown / pending"),
+                 "or more than 64 keys, or the index was grown / pending. In 2 cases of 5 an additional multitree column (plain 1/2, rc 1/4, "
+                 "append_only 1/4; 2..5 trees with NodeRef::Existing sharing; independent forest oracle): unselected in 5/6 (files incl. refcount_CC_BB "
+                 "identical / in place, trees read back, entry count and stored node counts equal, then DereferenceTree of a sharing tree + reopen: the "
+                 "other trees still read back), selected in 1/6 (must be refused). Scenario stale 8% (> 8192 keys, one reindex batch, then removal of "
+                 "keys present in both index tables, freed slots re-used in half of them: known finding F26), partial 8% (two or three growths in a row, "
+                 "one or two reindex batches); shares now grown 17%, pending 8%, partial 8%, badplan 8%, bulk 4%, stale 8%, plain 46%"),
         "assumptions": [A_HASH, A_COMPRESS,
                         "fresh destination directory; the source is not written by anyone else during the migration",
+                        "directory-level theorems: source closed cleanly with no reindex pending (an open source handle continues a pending reindex)",
                         "counts below u32::MAX (the saturated / locked value is not migrated by repetition)"],
         "trusted": ["hooks db.rs verif_iter_index / verif_hash_key / verif_index_tables / verif_index_entries, column.rs "
                     "verif_index_tables / verif_index_entries, index.rs verif_recover_key_prefix, lib.rs verif::recover_key_prefix (cfg pdb_verif)"],
     },
     "C12": {
         "level_text": ("Lean theorems C12_discipline_suffices / C12_torn_page_harmless (for every journal of durability events accepted by the executable "
-                       "discipline D1 log-synced-before-apply, D2 tables-synced-before-log-reclaim, D3 structure, every prefix = crash instant, every subset "
-                       "of unsynced 4 KiB pages of every mapped file and every surviving length of the unsynced log tail: recovery = replay of the surviving "
-                       "consecutive records yields exactly the tables after records 1..n, synced <= n <= appended, independent of which pages were torn), "
-                       "C12_synced_means_synced / C12_D1_positional, C12_programs_satisfy_D / C12_pipeline_power_loss (journals of the abstract worker "
-                       "programs over P1 histories are accepted; recovery equals P1's spec of a prefix), C12_D1/D2/D3_needed (each clause is necessary). "
+                       "discipline D1 log-synced-before-apply (stores AND the unlink of a table file, which is an event on behalf of a record), D2 "
+                       "tables-synced-before-log-reclaim, D3 structure, every prefix = crash instant, every subset of unsynced 4 KiB pages of every mapped file and "
+                       "every surviving length of the unsynced log tail: recovery = replay of the surviving consecutive records yields exactly the tables after "
+                       "records 1..n, synced <= n <= appended, independent of which pages were torn); C12_lifetimes / C12_synced_never_lost / "
+                       "C12_recovery_satisfies_D / C12_recovery_idempotent (any number of life times: the state Db::open finds after a power loss (crashSt) "
+                       "satisfies the same invariant, the events of Db::open (replay, flush, reclaim) satisfy the discipline, a power loss during or after a "
+                       "recovery recovers to the same prefix, nothing ever synced is lost or changed later); C12_synced_means_synced / C12_D1_positional / "
+                       "C12_D1_delete_positional / C12_D2_positional (positional readings of D1 and D2); C12_programs_satisfy_D / C12_pipeline_power_loss / "
+                       "C12_programs_unlink_after_sync / C12_pipeline_nested_power_loss (journals of the abstract worker programs over P1 histories, including "
+                       "reindex records = moveTx and DropTable records = dropTx enacted by an unlink, are accepted; recovery equals P1's spec of a prefix, also "
+                       "after a second power loss during the recovery); C12_drop_makes_invisible / C12_move_preserves_lookup; C12_D1/D1_delete/D2/D3_needed "
+                       "(each clause is necessary: the premature unlink of an old index file is accepted by the blinded discipline and loses a key). "
                        "Tied to the code by REAL journals (interposed fdatasync/fsync/msync/ftruncate/unlink + page diffs of the mapped files across "
-                       "stepping-API calls) fed to the compiled acceptor, by mutants of those journals that must be rejected at the same event as an "
-                       "independent positional checker rejects them, and by actual power-loss images reopened with the real code against a plain-map oracle."),
+                       "stepping-API calls and at every interposed call inside enact / open) of a first life time AND of the recovery Db::open of power-loss "
+                       "images (acceptor started from the surviving logs), fed to the compiled acceptor, by mutants of those journals that must be rejected at the "
+                       "same token as an independent positional checker rejects them, and by actual power-loss images (first level and nested: taken during / "
+                       "after a recovery) reopened with the real code against a plain-map / forest oracle."),
         "level_note": ("Partial by nature. Trusted: Lean kernel; assumption A-os (page-atomic write-back, msync/fdatasync semantics, "
                        "create/truncate/unlink/set_len durable at once, directory entries never lost) stated in Pdb/Model/Dur.lean; a record cut by the "
-                       "surviving log prefix is rejected whole (C13); stores are observed as page diffs at stepping-API boundaries (single-threaded), not "
-                       "per store."),
+                       "surviving log prefix is rejected whole (C13); stores are observed as page diffs at stepping-API boundaries and at every interposed sync / "
+                       "truncate / unlink inside enact / open (single-threaded), not per store; pages of an enact call with several records are attributed to "
+                       "every record of the call; a replayed record that was applied before is journalled with the stores of its first application."),
         "lean": ["Pdb.Props.C12", "Pdb.Proofs.Order"],
         "harness": [{"cmd": "c12", "quick": 400, "thorough": 8000, "max_search": 40000},
                     {"cmd": "c12x", "quick": 5, "thorough": 100, "max_search": 200}],
@@ -341,10 +379,19 @@ PROPS = {
                  "survives / everything / page-wise and log-prefix by seed); one real journal + up to 3 mutants per history; one case in four is "
                  "in growth mode (column 0 uniform with the identity hash, 66..96 keys of ONE index chunk filled in order, so that index growth, "
                  "reindex records and the drop of the old index file (event X) fall at arbitrary positions of the step interleaving); one case in "
-                 "six ends with a stored background error + drop (error branch of kill_logs) followed by two power-loss images; c12x: index growth "
+                 "six ends with a stored background error + drop (error branch of kill_logs) followed by two power-loss images; "
+                 "one case in six (case seed % 6 == 5) is the multitree variant: column 0 ref-counted multitree (InsertTree with 0..3 levels, fan-out 0..3, "
+                 "30 % of the children shared with live trees; DereferenceTree), column 1 plain, mixed transactions, oracle = every tree readable completely "
+                 "by content or absent as in ONE prefix; one image in four (and the page-wise image after an error shutdown) is reopened with interposition "
+                 "ON: the journal `<first life time so far> K:<log>:<n>.. Z <open>` is checked, one more mutant per such journal, a nested power-loss image is "
+                 "taken at the k-th (k in 1..13) sync / truncate / unlink inside that Db::open or right after it and must recover to the same prefix; mutant "
+                 "kinds: msync removed, fdatasync removed, truncate before the msyncs, unlink moved in front of the log sync; growth cases call "
+                 "process_reindex more often (5 % instead of 2 % of the steps) so that the drop of the old index (event X:<rec>:<file>) is reached; "
+                 "c12x: index growth "
                  "with a removal from the old index; distinct = SHA-1 of the op list; non-trivial = the journal has table writes and a log truncation"),
         "assumptions": ["A-os: file-system semantics of Pdb/Model/Dur.lean (header)", A_HASH, A_COMPRESS, P2_GAP],
-        "trusted": ["libc symbol interposition in harness/src/interpose.rs", "hook Db::verif_store_err (cfg pdb_verif; error-shutdown ending only)"],
+        "trusted": ["libc symbol interposition in harness/src/interpose.rs", "hook Db::verif_store_err (cfg pdb_verif; error-shutdown ending only)",
+                    "interposition observer (harness/src/interpose.rs set_observer): page diffs are taken right after each interposed call returned"],
     },
     "C05": {
         "level_text": ("Lean theorems C05_read_linearizable / C05_snapshot_order / C05_observed_value / C05_monotone / "
